@@ -308,10 +308,7 @@ func checkConverted(dir string, cfg Config, keys []KeySpec, model map[string][]b
 	}
 	defer func() {
 		if sub.s != nil {
-			func() {
-				defer func() { recover() }()
-				sub.s.Close()
-			}()
+			closeQuietly(sub.s)
 		}
 	}()
 	v = guard(-1, "upgrade-open", func() *Violation {
